@@ -1586,6 +1586,27 @@ func (e *Exec) jSeqEq(a, b []JMember) *T {
 		return out
 	}
 	a, b = filter(a), filter(b)
+	// fast path: same names position by position, no name repeated: the printed sequences are equal
+	// iff every position has the same presence and, when present, the same value
+	if len(a) == len(b) {
+		aligned := true
+		seen := map[string]bool{}
+		for i := range a {
+			if !a[i].K.Concrete() || !b[i].K.Concrete() || a[i].K.S != b[i].K.S || seen[a[i].K.S] {
+				aligned = false
+				break
+			}
+			seen[a[i].K.S] = true
+		}
+		if aligned {
+			var cs []*T
+			for i := range a {
+				ga, gb := guardT(a[i].G), guardT(b[i].G)
+				cs = append(cs, sym.Eq(ga, gb), sym.Implies(ga, e.jBytesEq(a[i].V, b[i].V)))
+			}
+			return sym.And(cs...)
+		}
+	}
 	var rec func(i, j int) *T
 	memo := map[[2]int]*T{}
 	rec = func(i, j int) *T {
@@ -1603,7 +1624,10 @@ func (e *Exec) jSeqEq(a, b []JMember) *T {
 			r = sym.And(sym.Not(guardT(a[i].G)), rec(i+1, j))
 		default:
 			ga, gb := guardT(a[i].G), guardT(b[j].G)
-			match := sym.And(ga, gb, e.jstrEq(a[i].K, b[j].K), e.jBytesEq(a[i].V, b[j].V), rec(i+1, j+1))
+			match := sym.False
+			if ne := e.jstrEq(a[i].K, b[j].K); !ne.IsFalse() {
+				match = sym.And(ga, gb, ne, e.jBytesEq(a[i].V, b[j].V), rec(i+1, j+1))
+			}
 			if ga.IsTrue() && gb.IsTrue() {
 				r = match
 			} else {
